@@ -7,19 +7,69 @@
 
 unsigned g_need;
 
+#ifdef CC_GHOST
+/* C10: the same abstraction additionally interprets the handful of instructions that the calling-convention contracts
+ * talk about (contracts/callconv.c): push/pop on a ghost stack, and the MXCSR save / modify / restore dataflow through
+ * executor slots and one general-purpose register, over the abstract values CC_UNKNOWN / CC_ORIG (the caller's MXCSR)
+ * / CC_MOD (caller's value | 0x8040). */
+#include "contracts/callconv.h"
+int g_sp, g_cc_bad, g_stack[CC_STACK], g_szstack[CC_STACK];
+int g_mx, g_nslot, g_slot_off[CC_SLOTS], g_slot_val[CC_SLOTS], g_reg, g_reg_val;
+static int slot_get (int off) { for (int i = 0; i < CC_SLOTS; i++) if (i < g_nslot && g_slot_off[i] == off) return g_slot_val[i]; return CC_UNKNOWN; }
+static void slot_set (int off, int v)
+{
+  for (int i = 0; i < CC_SLOTS; i++) if (i < g_nslot && g_slot_off[i] == off) { g_slot_val[i] = v; return; }
+  if (g_nslot < CC_SLOTS) { g_slot_off[g_nslot] = off; g_slot_val[g_nslot] = v; g_nslot++; } else g_cc_bad |= CC_BAD_CAPACITY;
+}
+static void cc_size (int index, int size, int src, int dest)
+{
+  if (index == ORC_X86_push) {
+    if (g_sp >= 0 && g_sp < CC_STACK) { g_stack[g_sp] = src; g_szstack[g_sp] = size; } else g_cc_bad |= CC_BAD_CAPACITY;
+    g_sp++;
+  } else if (index == ORC_X86_pop) {
+    if (g_sp <= 0 || g_sp > CC_STACK) g_cc_bad |= CC_BAD_UNDERFLOW;
+    else if (g_stack[g_sp - 1] != dest || g_szstack[g_sp - 1] != size) g_cc_bad |= CC_BAD_MISMATCH;
+    g_sp--;
+  } else if (dest == g_reg) g_reg_val = CC_UNKNOWN;
+}
+static void cc_mem_load (int index, int offset, int dest)   /* [base+offset] -> register or MXCSR, or MXCSR -> [base+offset] */
+{
+  if (index == ORC_X86_stmxcsr) slot_set (offset, g_mx);
+  else if (index == ORC_X86_ldmxcsr) g_mx = slot_get (offset);
+  else if (index == ORC_X86_movl_rm_r || index == ORC_X86_mov_rm_r) { g_reg = dest; g_reg_val = slot_get (offset); }
+  else if (dest == g_reg) g_reg_val = CC_UNKNOWN;
+}
+static void cc_mem_store (int index, int src, int offset)
+{
+  if (index == ORC_X86_movl_r_rm || index == ORC_X86_mov_r_rm) slot_set (offset, src == g_reg ? g_reg_val : CC_UNKNOWN);
+  else slot_set (offset, CC_UNKNOWN);
+}
+static void cc_imm_reg (int index, int imm, int dest)
+{
+  if (dest != g_reg) return;
+  if (index == ORC_X86_or_imm32_rm && imm == 0x8040 && g_reg_val == CC_ORIG) g_reg_val = CC_MOD;
+  else if (index != ORC_X86_cmp_imm32_rm && index != ORC_X86_cmp_imm8_rm && index != ORC_X86_test_imm) g_reg_val = CC_UNKNOWN;
+}
+#else
+#define cc_size(index, size, src, dest) ((void)0)
+#define cc_mem_load(index, offset, dest) ((void)0)
+#define cc_mem_store(index, src, offset) ((void)0)
+#define cc_imm_reg(index, imm, dest) ((void)0)
+#endif
+
 #define REC(index, prefix) (g_need |= isa_need_ip ((index), (prefix)))
 
-void orc_x86_emit_cpuinsn_size (OrcCompiler *p, int index, int size, int src, int dest) { REC (index, 0); }
+void orc_x86_emit_cpuinsn_size (OrcCompiler *p, int index, int size, int src, int dest) { REC (index, 0); cc_size (index, size, src, dest); }
 void orc_x86_emit_cpuinsn_imm (OrcCompiler *p, int index, int imm, int src, int dest) { REC (index, 0); }
-void orc_x86_emit_cpuinsn_load_memoffset (OrcCompiler *p, int index, int size, int imm, int offset, int src, int dest) { REC (index, 0); }
+void orc_x86_emit_cpuinsn_load_memoffset (OrcCompiler *p, int index, int size, int imm, int offset, int src, int dest) { REC (index, 0); cc_mem_load (index, offset, dest); }
 void orc_x86_emit_cpuinsn_store_memoffset (OrcCompiler *p, int index, int size, int imm, int offset, int src, int dest) { REC (index, 0); }
 void orc_x86_emit_cpuinsn_load_memindex (OrcCompiler *p, int index, int size, int imm, int offset, int src, int src_index, int shift, int dest) { REC (index, 0); }
-void orc_x86_emit_cpuinsn_imm_reg (OrcCompiler *p, int index, int size, int imm, int dest) { REC (index, 0); }
+void orc_x86_emit_cpuinsn_imm_reg (OrcCompiler *p, int index, int size, int imm, int dest) { REC (index, 0); cc_imm_reg (index, imm, dest); }
 void orc_x86_emit_cpuinsn_imm_memoffset (OrcCompiler *p, int index, int size, int imm, int offset, int dest) { REC (index, 0); }
-void orc_x86_emit_cpuinsn_reg_memoffset (OrcCompiler *p, int index, int src, int offset, int dest) { REC (index, 0); }
-void orc_x86_emit_cpuinsn_reg_memoffset_8 (OrcCompiler *p, int index, int src, int offset, int dest) { REC (index, 0); }
-void orc_x86_emit_cpuinsn_reg_memoffset_s (OrcCompiler *p, int index, int size, int src, int offset, int dest) { REC (index, 0); }
-void orc_x86_emit_cpuinsn_memoffset_reg (OrcCompiler *p, int index, int size, int offset, int src, int dest) { REC (index, 0); }
+void orc_x86_emit_cpuinsn_reg_memoffset (OrcCompiler *p, int index, int src, int offset, int dest) { REC (index, 0); cc_mem_store (index, src, offset); }
+void orc_x86_emit_cpuinsn_reg_memoffset_8 (OrcCompiler *p, int index, int src, int offset, int dest) { REC (index, 0); cc_mem_store (index, src, offset); }
+void orc_x86_emit_cpuinsn_reg_memoffset_s (OrcCompiler *p, int index, int size, int src, int offset, int dest) { REC (index, 0); cc_mem_store (index, src, offset); }
+void orc_x86_emit_cpuinsn_memoffset_reg (OrcCompiler *p, int index, int size, int offset, int src, int dest) { REC (index, 0); cc_mem_load (index, offset, dest); }
 void orc_x86_emit_cpuinsn_branch (OrcCompiler *p, int index, int label) { REC (index, 0); }
 void orc_x86_emit_cpuinsn_align (OrcCompiler *p, int index, int align_shift) { REC (index, 0); }
 void orc_x86_emit_cpuinsn_label (OrcCompiler *p, int index, int label) { REC (index, 0); }
@@ -28,7 +78,7 @@ void orc_x86_emit_cpuinsn_memoffset (OrcCompiler *p, int index, int size, int of
 void orc_vex_emit_cpuinsn_none (OrcCompiler *p, const int index, const OrcX86OpcodePrefix prefix) { REC (index, prefix); }
 void orc_vex_emit_cpuinsn_size (OrcCompiler *const p, const int index, const int size, const int src0, const int src1, const int dest, const OrcX86OpcodePrefix prefix) { REC (index, prefix); }
 void orc_vex_emit_cpuinsn_imm (OrcCompiler *const p, const int index, const int imm, const int src0, const int src1, const int dest, const OrcX86OpcodePrefix prefix) { REC (index, prefix); }
-void orc_vex_emit_cpuinsn_load_memoffset (OrcCompiler *const p, const int index, const int size, const int imm, const int offset, const int src0, const int src1, const int dest, const OrcX86OpcodePrefix prefix) { REC (index, prefix); }
+void orc_vex_emit_cpuinsn_load_memoffset (OrcCompiler *const p, const int index, const int size, const int imm, const int offset, const int src0, const int src1, const int dest, const OrcX86OpcodePrefix prefix) { REC (index, prefix); cc_mem_load (index, offset, dest); }
 void orc_vex_emit_cpuinsn_store_memoffset (OrcCompiler *const p, const int index, const int size, const int imm, const int offset, const int src, const int dest, const OrcX86OpcodePrefix prefix) { REC (index, prefix); }
 void orc_vex_emit_cpuinsn_load_memindex (OrcCompiler *const p, const int index, const int size, const int imm, const int offset, const int src, const int src_index, const int shift, int dest, const OrcX86OpcodePrefix prefix) { REC (index, prefix); }
 void orc_vex_emit_blend_size (OrcCompiler *const p, const int index, const int size, const int src0, const int src1, const int src2, const int dest, const OrcX86OpcodePrefix prefix) { REC (index, prefix); }
